@@ -26,7 +26,7 @@ def publish_raw_start(w, sm_arn, data, message_id=None, definition=None):
 
 
 def run_monitored(case, schedule=(), want=("lifecycle", "ack", "history", "surface"), seed=0, store="file", tick=1e-6,
-                  starts=None, n_engines=1, max_steps=4000, tz="UTC", split=False, orphan_retention_ms=3000, probe=None):
+                  starts=None, n_engines=1, max_steps=4000, tz="UTC", split=False, orphan_retention_ms=3000, probe=None, logging=None, rerun_same_name=False):
     """
     case: dict(definition, input, oracle, type).  starts: list of dict(mode="api"|"raw"|"raw-id", input=..., name=...).
     -> dict(fails={monitor: [(bucket, detail)]}, info={...}, world closed)
@@ -41,7 +41,10 @@ def run_monitored(case, schedule=(), want=("lifecycle", "ack", "history", "surfa
         for i in ids:
             w.add_engine(i)
         H.install_workers(w, case["definition"], case.get("oracle") or {})
-        st, resp = w.create_state_machine("m1", case["definition"], type_=case.get("type", "STANDARD"))
+        extra_create = {}
+        if logging:
+            extra_create["loggingConfiguration"] = {"level": logging, "includeExecutionData": True, "destinations": [{"cloudWatchLogsLogGroup": {"logGroupArn": "arn:aws:logs:local:0123456789:log-group:x"}}]}
+        st, resp = w.create_state_machine("m1", case["definition"], type_=case.get("type", "STANDARD"), **extra_create)
         if st != 200:
             raise RuntimeError("CreateStateMachine refused a generated machine: %r" % (resp,))
         standard = case.get("type", "STANDARD") == "STANDARD"
@@ -57,6 +60,8 @@ def run_monitored(case, schedule=(), want=("lifecycle", "ack", "history", "surfa
         if "surface" in want:
             mons["surface"] = M.SurfaceMonitor(started, is_std)
         w.after_step.extend(m.after_step for m in mons.values())
+        if "surface" in mons:
+            w.on_notify.append(mons["surface"].at_publish)
         w.split_delivery = split
         raw_count = 0
         for k, s in enumerate(starts):
@@ -82,6 +87,14 @@ def run_monitored(case, schedule=(), want=("lifecycle", "ack", "history", "surfa
         res = w.run(schedule, max_steps=max_steps, until=settled)
         if res == "until":
             res = "quiescent"
+        if rerun_same_name and res == "quiescent":
+            # the same execution name is used again after the first run has ended (names are not checked for uniqueness)
+            for m_ in mons.values():
+                if hasattr(m_, "changes"):
+                    m_.changes.clear()
+            st, r = w.start_execution(SM_ARN, starts[0]["input"], name=starts[0].get("name", "e1"), engine=ids[0])
+            if st == 200:
+                res = w.run([], max_steps=max_steps, until=None)
         # executions started through raw events get their ARN from the engine: discover them from the notifications
         for n in w.notifications:
             arn = ((n.get("body") or {}).get("detail") or {}).get("executionArn")
@@ -129,6 +142,13 @@ def cases_with_schedules(cfg=None, max_sched=40, multi=True):
     @st.composite
     def strat(draw):
         case = draw(gm.machine_cases(dict(cfg or CFG_SCHED)))
+        if draw(st.integers(0, 11)) == 0:
+            # a structured nested fan-out (Map in Map / Parallel in Map with MaxConcurrency blocks): rare in the free-form generator
+            from .checks import c05
+            k = draw(st.sampled_from(["map-of-map", "map-of-parallel", "parallel-with-map"]))
+            c5 = {"kind": k, "n": draw(st.integers(2, 3)), "mc": draw(st.sampled_from([1, 1, 2, 0])), "inner_mc": draw(st.sampled_from([None, 1])), "two": draw(st.booleans())}
+            d_, i_, o_ = c05.build(c5)
+            case = {"definition": d_, "input": i_, "oracle": o_, "type": case["type"], "features": ["Map", "structured-nested-fanout"]}
         sched = draw(st.lists(st.integers(0, 6), max_size=max_sched))
         # most steps canonical, so that deviations are isolated and shrink well
         if draw(st.booleans()):
